@@ -1,7 +1,12 @@
 use crate::fw::CheckDef;
 pub mod c03;
 pub mod core;
+pub mod lexchk;
 pub mod valsem;
+pub mod c18;
+pub mod c19;
+pub mod c21;
+pub mod c22;
 pub mod c28;
 
 pub fn registry() -> Vec<CheckDef> {
@@ -9,6 +14,11 @@ pub fn registry() -> Vec<CheckDef> {
     v.push(c03::def());
     v.extend(core::defs());
     v.extend(valsem::defs());
+    v.extend(lexchk::defs());
+    v.push(c18::def());
+    v.push(c19::def());
+    v.push(c21::def());
+    v.push(c22::def());
     v.push(c28::def());
     v
 }
